@@ -248,6 +248,12 @@ class Check(core.CheckBase):
             return []
         return self.judge_one(obj, case, ('object', case['cls'], case['number']))
 
+    def judge_input(self, case):
+        """Self-contained witness: the object parsed from the given bytes."""
+        cls = inventory.resolve(case['cls'])
+        obj = cls.parse_exact_size(bytes.fromhex(case['hex']))
+        return self.judge_one(obj, case, ('input', case['cls'], case['hex']))
+
     def judge_generated(self, case):
         """Constructed objects (vmon/gen: built through the public constructors with bytes rather than bytearray values, sets
         with several members, unknown / GREASE code points, None-valued optional fields) and the library objects nested in them."""
